@@ -11,7 +11,7 @@ THEOREMS_C15E = ["Slock.C15E.reply_is_before_lock", "Slock.C15E.reply_is_before_
                  "Slock.C15E.refused_unchanged_lock", "Slock.C15E.refused_unchanged_unlock", "Slock.C15E.value_update_is_processFrame",
                  "Slock.C15E.relock_value", "Slock.C15E.update_value", "Slock.C15E.unlock_value", "Slock.C15E.p0b_reply_carries_no_value"]
 THEOREMS_C17R = ["Slock.C17R.reachable_refcounts", "Slock.C17R.keycount_exact", "Slock.C17R.waiter_has_no_expiry_entry", "Slock.C17R.nothing_leaks",
-                 "Slock.C17R.queues_empty_of_no_live", "Slock.C17R.drain_live", "Slock.C17R.drain_tombstones",
+                 "Slock.C17R.queues_empty_of_no_live", "Slock.C17R.scheduled_in_future", "Slock.C17R.drain_live", "Slock.C17R.drain_live_total", "Slock.C17R.drain_tombstones",
                  "Slock.C17R.drain", "Slock.C17R.drain_partial"]
 # simulation stage 2 -> stage 1 through `abs` (Slock/Properties/EngineSim.lean); partial: see the header of that file
 THEOREMS_SIM = ["Slock.SimP.abs_is_key_local", "Slock.SimP.lock_branch_refines", "Slock.SimP.unlock_branch_refines",
